@@ -1,18 +1,61 @@
 #!/usr/bin/env python3
 """py2lean -- regenerate Lean definitions from the Python source of artap (translation tie).
 
-    Python source ($REPO, default /repo)  --this file-->  lean/ArtapModel/Gen/<Name>.lean
-    lean/ArtapModel/Tie/<Name>.lean (hand-written):  tie_<fn> : <generated fn> = <model fn>
+    Python source ($REPO, default /repo)  --this file-->  lean/ArtapModel/Gen/<Name>.lean   (generated)
+    lean/ArtapModel/Tie/<Name>.lean (hand-written, committed):  tie_<fn> : <generated fn> = <model fn>
 
-The source is read with `ast.parse` (artap is never imported).  The supported subset is
-compiled to plain structurally recursive Lean functions (one auxiliary function per `for`
-loop, the code after the loop living in the `[]` case).  Anything outside the subset stops the
-translator with `py2lean: unsupported: ...` (exit status 3); nothing approximate is emitted.
+so every property theorem about the hand-written model is, by transitivity, a theorem about the
+function generated from what the source says *now*.  The source is read with `ast.parse` (artap is
+never imported).  Anything outside the supported subset stops the translator with
+`py2lean: unsupported: <file> <function>: line N: <why>: <source>` (exit status 3 for --gen,
+`"generated": false` for --tie); nothing approximate is ever emitted.
 
-CLI:  --gen <Name> | --tie <Name> | --all | --list      (see the end of the file)
+CLI
+    --gen <Name> [--stdout]   regenerate lean/ArtapModel/Gen/<Name>.lean (byte-identical for identical input)
+    --tie <Name>              regenerate, `lake build ArtapModel.Tie.<Name>`, audit the axioms of every
+                              `tie_*` theorem; prints one JSON line
+                              {"name","generated","tie_checks","theorems","source_blob","serves","detail"}; exit 0
+    --all                     --tie for every covered module
+    --list                    covered modules, functions and the property ids each tie serves
+    --lean-dir DIR            lake project to write to / build in (default /verif/lean; the self-test uses a copy)
+The per-function *spec entries* (Lean parameter lists, result types, binding tables, oracles) are in
+tools/py2lean_specs.py; the mutation self-test is tools/py2lean_selftest.py (+ py2lean_mutations.py).
 
-The per-function *spec entries* (Lean parameter lists, result types, binding tables) live in
-tools/py2lean_specs.py.
+Compile scheme (this is the trusted part: what is assumed about Python)
+  * statements: `block(stmts, k)` gives a Lean *term*; `return e` -> e; `x = e; rest` -> `let x := e; rest`
+    (shadowing models rebinding; `x += e` likewise); `if/elif/else; rest` -> `if c then A;rest else B;rest`
+    (continuation duplicated; an `if` whose branches only assign existing variables and cannot raise becomes
+    `let x := if c then e else x`); `pass`/docstrings skipped; `raise` -> `none`.
+  * `for pat in it: body; rest` -> a top-level structurally recursive function `<fn>_loop<k>` over the list
+    value of `it`: its `[]` case is `rest`, its `pat :: tl` case is `body` followed by the recursive call on
+    `tl`; `continue` = that call, `break` = `rest`, `return e` = e.  It takes as parameters the Lean
+    parameters it mentions and the *carried* variables (every variable read in body or rest), ordered by
+    first occurrence in the generated body, so renaming locals or reordering initialisations leaves the
+    definitions alpha-equivalent.  Iterables: a list value, `list(xs)` (snapshot), `range(n)` -> `List.range n`,
+    `zip(a, b)` -> `List.zip`, `enumerate(a)` -> `List.zipIdx` (element first, index second).
+    Lists are values: `xs.append(e)`, `xs.remove(e)`, `del xs[k]` rebind `xs`; iterating a list that the
+    function mutates in place without a snapshot, or aliasing such a list, is rejected.
+  * expressions are typed from the spec entry (never inferred from Python objects): `Int`/`Nat`/`Rat`/`Bool`,
+    an opaque ordered carrier, lists, pairs, spec record types with declared accessors.  `a > b` is emitted as
+    `b < a`, `a >= b` as `b ≤ a`, `==`/`!=` as `=`/`≠` (a literal on the left is moved to the right),
+    `and/or/not` as `∧ ∨ ¬` (a Bool variable `v` in a condition is `v = true`); `abs` on Int is `Int.natAbs`,
+    on Rat `pyAbs`; `min(a,b)` = `if b < a then b else a`, `max(a,b)` = `if a < b then b else a` (CPython's
+    choice on ties); `len` = `List.length`; `float(x)` = x; `math.pow(x, 2.0)` = `x * x`; natural-number
+    subtraction is done in `Int`.  A float literal denotes the decimal number written (`1e-3` = 1/1000):
+    arithmetic is that of the rationals (regime R2 of DESIGN.md), not IEEE.
+  * operations that can raise are never defaulted: `a / b` and `a % b` guard `b ≠ 0`, `xs[i]` is `xs[i]?`
+    (signed indices through `pyGet`/`pyDel` with Python's from-the-end rule), `xs.remove` needs a hit,
+    `random.choice([])`, `random.sample` with equal / out-of-range positions; a failing guard is `none`
+    (result type `Option _`).  Such an operation on the right of `and`/`or` or inside `a if c else b`
+    is rejected.  A guard already passed on the same straight-line path is not emitted twice.
+  * random draws and callables held by `self` are parameters of the generated function (oracles), declared in
+    the spec entry; attribute / subscript chains on parameters are translated only through the spec's binding
+    table and accessor tables (e.g. `p[-1] -> mp`, `p[:-1] -> p`, `x.features['front_number'] -> x.front`).
+  Rejected: while, try, with, comprehensions and generator expressions, lambda, nested def, nested for,
+  for/else, chained comparison, chained / tuple assignment, assignment to a parameter, slices and negative
+  indices outside the binding table, keyword arguments, `//`, `**`, `int()`, `round()`, string operations,
+  unknown calls and attributes, decorators other than staticmethod/classmethod, parameter defaults, a
+  variable whose type changes, control falling off the end of a function without `none_ret` in the spec.
 """
 import argparse
 import ast
@@ -284,6 +327,7 @@ class Fn:
     def compile(self):
         for _ in range(6):
             self.observed = {}
+            self.unresolved = False
             self.defs = []
             self.nloops = 0
             self.ntmp = 0
@@ -291,7 +335,7 @@ class Fn:
             body = self.run()
             new = {}
             for x, ts in self.observed.items():
-                conc = sorted(set(t for t in ts if t != "IntLit"), key=str)
+                conc = sorted(set(t for t in ts if t != "IntLit" and t != ("List", "?")), key=str)
                 if len(conc) == 1:
                     new[x] = conc[0]
                 elif len(conc) > 1:
@@ -300,6 +344,8 @@ class Fn:
                     else:
                         bad(self.fn, "variable %s takes values of different types %s" % (x, conc))
             if new == self.vartype:
+                if self.unresolved:
+                    bad(self.fn, "element type of an empty list could not be determined")
                 return body
             self.vartype = new
         bad(self.fn, "literal typing did not stabilise")
@@ -512,7 +558,7 @@ class Fn:
         if key in self.state:
             return self.state[key][0]
         if isinstance(tgt, ast.Name):
-            if tgt.id in self.vars or tgt.id in self.lean_param_names:
+            if tgt.id in self.vars or tgt.id in self.lean_param_names or tgt.id in self.s["py_params"]:
                 bad(tgt, "assignment to a parameter")
             return tgt.id
         bad(tgt, "assignment target")
@@ -528,7 +574,9 @@ class Fn:
         else:
             pre, v, ty = self.expr(ast.BinOp(left=tgt, op=op, right=value, lineno=st.lineno), env, hint)
         self.observed.setdefault(x, []).append(ty)
-        if ty == "IntLit" and self.vartype.get(x):
+        if ty == ("List", "?") and self.vartype.get(x):
+            v, ty = C("([] : %s)" % tshow(self.vartype[x])), self.vartype[x]
+        elif ty == "IntLit" and self.vartype.get(x):
             v, ty = self.coerce(v, ty, self.vartype[x], st), self.vartype[x]
         elif self.vartype.get(x) and ty != self.vartype[x]:
             v, ty = self.coerce(v, ty, self.vartype[x], st), self.vartype[x]
@@ -546,9 +594,35 @@ class Fn:
             x = self.target_var(f.value, env)
             if x not in env or not (isinstance(env[x], tuple) and env[x][0] == "List"):
                 bad(st, "append on something that is not a list variable")
-            pre, v, ty = self.expr(call.args[0], env, env[x][1])
-            v = self.coerce(v, ty, env[x][1], st)
-            return self.wrap(pre, Let(x, Tm("({0} ++ [{1}])", [V(x), v]), after(env)), st)
+            if env[x][1] == "?":
+                pre, v, ty = self.expr(call.args[0], env)
+                self.observed.setdefault(x, []).append(("List", ty))
+                self.unresolved = True
+            else:
+                pre, v, ty = self.expr(call.args[0], env, env[x][1])
+                v = self.coerce(v, ty, env[x][1], st)
+            return self.wrap(pre, Let(x, Tm("({0} ++ [{1}])", [V(x), v]), after(self.forget(env, [x]))), st, env)
+        if isinstance(f, ast.Attribute) and f.attr == "remove" and len(call.args) == 1 and not call.keywords:
+            # xs.remove(v): delete the first member m with `m == v`; ValueError when there is none
+            x = self.target_var(f.value, env)
+            if x not in env or not (isinstance(env[x], tuple) and env[x][0] == "List"):
+                bad(st, "remove on something that is not a list variable")
+            et = env[x][1]
+            pre, v, ty = self.expr(call.args[0], env, et)
+            v = self.coerce(v, ty, et, st)
+            if et in self.eqs:
+                test = self.eqs[et].format("m", "{0}")
+                pred = Tm("(fun m => " + test.replace("{", "{{").replace("}", "}}").replace("{{0}}", "{0}") + ")", [v],
+                          fv=self.mentions(self.eqs[et]))
+            elif et in NUMERIC:
+                pred = Tm("(fun m => decide (m = {0}))", [v])
+            else:
+                bad(st, "remove on a list whose element type %s has no equality in the spec" % tshow(et))
+            t = self.tmp()
+            body = MatchOpt(Tm("(List.findIdx? {0} {1})", [pred, V(x)]), t,
+                            Let(x, Tm("(List.eraseIdx {0} {1})", [V(x), V(t)]), after(self.forget(env, [x]))),
+                            self.none(st))
+            return self.wrap(pre, body, st, env)
         key = ast.unparse(f)
         if key in self.calls and self.calls[key].get("stmt"):
             return self.calls[key]["stmt"](self, st, env, after)
@@ -563,13 +637,15 @@ class Fn:
             bad(st, "del on something that is not a list variable")
         pre, i, ty = self.expr(sub.slice, env, "Int")
         self.need("pyDel")
+        if ty == "?":                                  # resolved by the next typing pass
+            self.unresolved, ty = True, "Nat"
         if ty in ("Nat", "IntLit"):
             i = self.coerce(i, ty, "Int", st)
         elif ty != "Int":
             bad(st, "del index type")
         t = self.tmp()
-        body = MatchOpt(Tm("(pyDel {0} {1})", [V(x), i]), t, Let(x, V(t), after(env)), self.none(st))
-        return self.wrap(pre, body, st)
+        body = MatchOpt(Tm("(pyDel {0} {1})", [V(x), i]), t, Let(x, V(t), after(self.forget(env, [x]))), self.none(st))
+        return self.wrap(pre, body, st, env)
 
     def loop(self, st, env, after):
         if any(isinstance(n, ast.For) for b in st.body for n in ast.walk(b)):
@@ -583,7 +659,7 @@ class Fn:
         for a, b in patenv.items():
             if a in env and env[a] != b:
                 bad(st, "loop variable changes the type of an existing variable")
-            if a in self.vars or a in self.lean_param_names:
+            if a in self.vars or a in self.lean_param_names or a in self.s["py_params"]:
                 bad(st, "loop variable shadows a parameter")
             env2[a] = b
             self.observed.setdefault(a, []).append(b)
@@ -683,7 +759,7 @@ class Fn:
             self.setlit(v, want, node)
             return v
         if ty == "Nat" and want == "Int":
-            return Tm("(Int.ofNat {0})", [v])
+            return Tm("({0} : Int)", [v])
         if ty == "IntLit" and want in self.carrier:
             bad(node, "integer literal used as a value of the opaque carrier %s" % want)
         bad(node, "type mismatch: have %s, need %s" % (tshow(ty), tshow(want)))
@@ -737,7 +813,7 @@ class Fn:
         if table is None or acc not in table:
             bad(node, "no accessor %s on a value of type %s in the spec" % (acc, tshow(tb)))
         tmpl, ty = table[acc]
-        return Tm(tmpl, [base]), ty
+        return Tm(tmpl, [base], fv=self.mentions(tmpl)), ty
 
     def expr(self, n, env, want=None):
         """-> (prelude, term, type).  prelude: [("guard", Prop) | ("bind", x, Option-term)] in
@@ -809,7 +885,8 @@ class Fn:
         if isinstance(n, ast.List):
             if not n.elts:
                 if not (isinstance(want, tuple) and want[0] == "List"):
-                    bad(n, "empty list whose element type is unknown")
+                    # element type still unknown: found from the first `append`, next typing pass
+                    return [], C("[]"), ("List", "?")
                 return [], C("([] : %s)" % tshow(want)), want
             pres, items, ty = [], [], None
             wel = want[1] if isinstance(want, tuple) and want[0] == "List" else None
@@ -985,7 +1062,7 @@ class Fn:
             p1, a, ta = self.expr(n.left, env)
             p2, b, tb = self.expr(n.comparators[0], env)
             if isinstance(o, (ast.Eq, ast.NotEq)) and ta == tb and ta in self.eqs:
-                c = Tm("(" + self.eqs[ta] + " = true)", [a, b])
+                c = Tm("(" + self.eqs[ta] + " = true)", [a, b], fv=self.mentions(self.eqs[ta]))
                 return p1 + p2, (c if isinstance(o, ast.Eq) else Not(c))
             a, b, ty = self.unify(a, ta, b, tb, n)
             if ty == "IntLit":
@@ -1069,6 +1146,9 @@ class Rename(ast.NodeTransformer):
 def normalise(fn, spec):
     """parameters -> the spec's canonical names (by position); locals -> v1, v2, ... in order of
     first assignment.  Returns the set of assigned names and of lists mutated in place."""
+    for d in fn.decorator_list:
+        if ast.unparse(d) not in ("staticmethod", "classmethod"):
+            bad(d, "decorator")
     a = fn.args
     if a.vararg or a.kwarg or a.kwonlyargs or a.posonlyargs:
         bad(fn, "parameter kinds other than plain positional")
